@@ -183,6 +183,62 @@ def live (s : Sys) (v : Nat) : Bool := (s.hs v).returned && !(s.hs v).cancelled
 /-- keys (below n) the holder's value still owns on the server -/
 def owned (s : Sys) (v : Nat) : Nat := cnt s.n (fun i => decide (s.regs i = some v))
 
+/-! ### key names: `keyname` and the parsing in onInvalidations
+
+`keyname(prefix, name, i) = prefix + ":" + strconv.Itoa(i) + ":" + name`; onInvalidations takes a
+pushed key `k` with `strings.HasPrefix(k, prefix)`, cuts `k[len(prefix)+1:]` (the byte after the
+prefix is not looked at; a key that IS the prefix makes the slice expression panic), splits it with
+`strings.SplitN(…, ":", 2)` — at the FIRST colon only, so the name may contain colons —, reads the
+index with `strconv.Atoi` (error ignored: 0) and signals `g.csc[n]` and `g.ch` of the gate
+registered under the name (an index outside the gate's channels panics). Strings are character
+lists here (the driver maps byte b to the character with code b). -/
+namespace KeyName
+
+def keyname (p : List Char) (i : Nat) (n : List Char) : List Char := p ++ ':' :: (Nat.toDigits 10 i ++ ':' :: n)
+
+/-- `strings.SplitN(s, ":", 2)` with `len(ks) == 2`: the parts before and after the first colon -/
+def splitFirst : List Char → Option (List Char × List Char)
+  | [] => none
+  | c :: r => if c = ':' then some ([], r) else (splitFirst r).map fun ab => (c :: ab.1, ab.2)
+
+def allDigits (d : List Char) : Bool := !d.isEmpty && d.all Char.isDigit
+
+/-- `n, _ := strconv.Atoi(s)`: optional sign and decimal digits, anything else gives 0
+(values beyond int64 are not modelled) -/
+def atoi (a : List Char) : Int :=
+  if a.head? = some '-' then (if allDigits a.tail then -((Nat.ofDigitChars 10 a.tail 0 : Nat) : Int) else 0)
+  else if a.head? = some '+' then (if allDigits a.tail then ((Nat.ofDigitChars 10 a.tail 0 : Nat) : Int) else 0)
+  else if allDigits a then ((Nat.ofDigitChars 10 a 0 : Nat) : Int) else 0
+
+inductive Parsed where
+  | ignored                                 -- not one of ours / no second part
+  | panic                                   -- slice bounds out of range
+  | hit (idx : Int) (name : List Char)
+  deriving Repr, DecidableEq
+
+def parseKey (p k : List Char) : Parsed :=
+  if p.isPrefixOf k then
+    if k.length < p.length + 1 then .panic
+    else match splitFirst (k.drop (p.length + 1)) with
+      | some (a, b) => .hit (atoi a) b
+      | none => .ignored
+  else .ignored
+
+inductive Signal where
+  | none | panic | gate (idx : Nat)
+  deriving Repr, DecidableEq
+
+/-- what onInvalidations does for one pushed key when a gate for `name` with `total` per-key
+channels exists -/
+def signal (p name : List Char) (total : Nat) (k : List Char) : Signal :=
+  match parseKey p k with
+  | .ignored => .none
+  | .panic => .panic
+  | .hit idx nm =>
+    if nm = name then (if 0 ≤ idx ∧ idx < total then .gate idx.toNat else .panic) else .none
+
+end KeyName
+
 /-! ### several WithContext waiters of ONE Locker (one gate channel, one connection)
 
 A small machine for exactly that configuration (KeyMajority 2, three keys): the gate channel
